@@ -8,15 +8,41 @@
 pub struct Tape<'a> {
     data: &'a [u16],
     pos: usize,
+    /// Pseudo-random continuation after the end of the tape (0 = off).
+    tail: u64,
 }
 
 impl<'a> Tape<'a> {
     pub fn new(data: &'a [u16]) -> Self {
-        Tape { data, pos: 0 }
+        Tape { data, pos: 0, tail: 0 }
+    }
+    /// From now on an exhausted tape continues with a pseudo-random sequence that
+    /// is a pure function of the tape's contents, instead of zeros.  Used by the
+    /// decoders of *large* cases (hundreds of functions), which need far more
+    /// choices than a tape holds; small cases keep the all-zero tail, which is what
+    /// makes truncation a simplification.
+    pub fn enable_tail(&mut self) {
+        let mut h: u64 = 0xcbf2_9ce4_8422_2325;
+        for v in self.data {
+            h ^= *v as u64;
+            h = h.wrapping_mul(0x0000_0100_0000_01b3);
+        }
+        self.tail = h | 1;
     }
     #[inline]
     pub fn next(&mut self) -> u16 {
-        let v = self.data.get(self.pos).copied().unwrap_or(0);
+        let v = match self.data.get(self.pos) {
+            Some(v) => *v,
+            None if self.tail != 0 => {
+                let mut x = self.tail;
+                x ^= x << 13;
+                x ^= x >> 7;
+                x ^= x << 17;
+                self.tail = x;
+                (x >> 40) as u16
+            }
+            None => 0,
+        };
         self.pos += 1;
         v
     }
